@@ -716,6 +716,40 @@ pub fn run(run: &Run, mode: Mode) {
                 }
             }
         }
+        // every message stream id 0..=70 and ids around byte boundaries, for the media, data and command types
+        let mut swept_ids = 0u64;
+        if let Ok(init) = init_state(mode, &sl, &g) {
+            let ids: Vec<u32> = (0..=70u32).chain([255, 256, 257, 65_535, 65_536, 0xFF_FFFF, 0x100_0000, 0x7FFF_FFFF, 0x8000_0000, 0xFFFF_FFFE, 0xFFFF_FFFF]).collect();
+            for &msid in ids.iter() {
+                for ty in [8u8, 9, 18, 20] {
+                    let script: Vec<Act> = vec![
+                        Act::Msg { ty, msid, ts: 0, len: 3, force: false, drop: false, deliver: true },
+                        Act::Msg { ty, msid, ts: 10, len: 3, force: false, drop: mode == Mode::C08, deliver: mode != Mode::C08 },
+                        Act::Msg { ty, msid, ts: 20, len: 5, force: false, drop: false, deliver: true },
+                        Act::Msg { ty, msid: msid ^ 1, ts: 20, len: 5, force: false, drop: false, deliver: true },
+                        Act::Msg { ty, msid, ts: 30, len: 5, force: false, drop: false, deliver: true },
+                    ];
+                    let mut cur = init.clone();
+                    let mut done: Vec<Value> = Vec::new();
+                    for a in script.iter() {
+                        let o = g.step(&cur, a);
+                        total_impl += o.impl_steps;
+                        total_trans += 1;
+                        done.push(g.describe(a));
+                        if let Some((sig, d)) = o.viol.into_iter().next() {
+                            run.violation(&sig, &d, json!({"slice": "all-message-stream-ids", "init_chunk_size": 2, "ops": done}));
+                            break;
+                        }
+                        cur = match o.succ.into_iter().next() {
+                            Some(x) => x,
+                            None => break,
+                        };
+                    }
+                    swept_ids += 1;
+                }
+            }
+        }
+        run.count("message_stream_id_scripts", swept_ids);
         run.count("type_id_scripts", swept);
     }
     // out-of-graph bounded cases: maximum-size messages
